@@ -23,6 +23,7 @@ func main() {
 	maxPaths := flag.Int("maxpaths", 0, "stop after this many paths (reported as bound failure)")
 	out := flag.String("out", "", "write result JSON here")
 	qlog := flag.String("qlog", "", "log deciding queries")
+	intMode := flag.Bool("int", false, "integer encoding instead of bit-vectors")
 	funcs := flag.Bool("funcs", false, "include names of executed repo functions in the result")
 	params := flag.String("params", "", "harness bounds: name=val,name=val")
 	flag.Parse()
@@ -42,7 +43,7 @@ func main() {
 		os.Exit(sym.RunConcrete(p, *fn))
 	}
 	st, err := sym.Explore(p, sym.Config{Harness: *fn, Workers: *workers, SolverKind: *solver,
-		TimeoutMS: *timeout, MaxPaths: *maxPaths, QueryLog: *qlog, Params: pm})
+		TimeoutMS: *timeout, MaxPaths: *maxPaths, QueryLog: *qlog, Params: pm, IntMode: *intMode})
 	if err != nil {
 		fmt.Fprintln(os.Stderr, "explore:", err)
 		os.Exit(2)
